@@ -26,6 +26,32 @@ def work_init(init):
         obs.extractor(k)
 
 
+# other spellings of a member type.  Which of them name a supported member is the router's business (public is_supported_file / get_extractor: its
+# extension table, aliases, compound names and the MIME fallback of this host): a spelling counts when the router gives it the same extractor
+ALT_EXTS = {".html": [".htm", ".xhtml", ".shtml", ".HTML", ".Htm", ".xht"], ".md": [".markdown", ".mdown", ".mkd", ".MD"], ".txt": [".text", ".log", ".TXT", ".nws", ".ksh", ".asc", ".conf"],
+            ".csv": [".CSV", ".Csv"], ".json": [".JSON"], ".docx": [".DOCX", ".docm"], ".xlsx": [".XLSX", ".xlsm"], ".pptx": [".PPTX", ".pptm"], ".pdf": [".PDF"], ".rtf": [".RTF"], ".epub": [".EPUB"],
+            ".odt": [".ODT"], ".ods": [".ODS"]}
+_ALT = {}
+
+
+def alt_extensions(ext):
+    if ext not in _ALT:
+        from sharepoint2text.parsing import router
+        ok = []
+        try:
+            native = router.get_extractor("x" + ext)
+            for a in ALT_EXTS.get(ext, []):
+                try:
+                    if router.is_supported_file("x" + a) and router.get_extractor("x" + a) is native:
+                        ok.append(a)
+                except Exception:
+                    pass
+        except Exception:
+            pass
+        _ALT[ext] = ok
+    return _ALT[ext]
+
+
 BLANK_EXTS = [".txt", ".csv", ".tsv", ".md", ".json"]      # extractors that accept empty input: an empty member is a visible member with an (empty) result
 
 
@@ -51,6 +77,7 @@ def build_members(seed: int, n: int, corrupt: int | None, with_noise: bool, pref
     dirs = ["", "a/", "a/b/", "docs v2/", "ünï/", "報告/", "Q1最终/", "x\u0100y/", "a\u3000b/", "\U0001F600/", "..data/", "v1...2/", "etc./",
             "long-" + "p" * 70 + "/" + "q" * 64 + "/"]      # > 100 bytes: GNU @LongLink record / ustar prefix field / pax path record in front of the member
     used = set()
+    alt_used = build_members.alt_used = []
     fmts = {}
     corrupted = None
     if prefix == "./":
@@ -85,6 +112,9 @@ def build_members(seed: int, n: int, corrupt: int | None, with_noise: bool, pref
         fmt = rng.choice(MEMBER_FMTS)
         data, _ = docs.build(fmt, seed * 100 + i)
         ext = docs.BUILDERS[fmt][3]
+        if rng.random() < 0.3 and alt_extensions(ext):
+            ext = rng.choice(alt_extensions(ext))      # another spelling of the type: upper case, alias, or known to the router only through its MIME fallback
+            alt_used.append(ext)
         d = rng.choice(dirs)
         # duplicate basenames in different folders are intended; names mix Latin-1, U+xx00 code units (0x0100, 0x4E00, 0x3000), astral and combining characters
         base = rng.choice(["report", "data", "notes", "Überblick", "same", "v1\u4e00", "Q1最终", "x\u0100", "é\u0300", "n\u3000m", "\U0001F4C4doc", "ß\u0200",
@@ -174,15 +204,39 @@ def _canon(j):
     return json.dumps(j, sort_keys=True, ensure_ascii=True)
 
 
+RECONF = [[{"enable_parallel": False}], [{}], [{"buffer_size": 32768}], [{"max_workers": 2}, {"enable_caching": True}], [{"enable_streaming": False, "buffer_size": 8192}]]
+
+
 def work(case):
+    """Option calls that do not mention the per-member limit (configure_archive_extraction: None = leave as it is) come first when the case
+    names them; the configuration is restored afterwards, and a case with problems is run again without them (control twin)."""
     from vlib.worker import arm_cpu
+    from sharepoint2text.parsing.extractors import archive_extractor as AE
     arm_cpu(120)
+    if case.get("reconf") is None:
+        return _work_all(case)
+    saved = AE._config
+    try:
+        for kw in RECONF[case["reconf"] % len(RECONF)]:
+            AE.configure_archive_extraction(**kw)
+        out = _work_all(case)
+    finally:
+        AE._config = saved
+    if out["problems"]:
+        out["reconf_twin_problems"] = sorted({p["sym"] for p in _work_all(case)["problems"]})
+    return out
+
+
+def _work_all(case):
     blanks = "empty" if case.get("blanks") else None
     upd = "same-name" if case.get("updates") else None
     rep_ = "run" if case.get("repetitive") else None
     mg = "BZ" if case.get("magicname") else None
     sub = not case.get("nosub")
     out = _run(case, case.get("prefix", ""), case.get("dict"), blanks, updates=upd, repetitive=rep_, magic=mg, substreams=sub)
+    if out["problems"] and case.get("bare_empty"):
+        out["bare_empty_twin_problems"] = sorted({p["sym"] for p in _run(case, "", None, None, twin=True)["problems"]})
+        return out
     if out["problems"] and mg:
         # control twin for the first member's name alone
         out["magic_twin_problems"] = sorted({p["sym"] for p in _run(case, case.get("prefix", ""), case.get("dict"), blanks, updates=upd, repetitive=rep_, magic="plain", substreams=sub)["problems"]})
@@ -213,9 +267,11 @@ def _run(case, prefix, dict_size, blanks=None, twin=False, updates=None, repetit
     from sharepoint2text.parsing import router
     members, eligible, corrupted = build_members(case["seed"], case["n"], case.get("corrupt"), case.get("noise", True), prefix, dict_size, blanks, updates, repetitive, magic)
     layout = case["layout"]
-    data = archives.build(layout, members, dict_size=None if twin else dict_size, substreams=substreams)
+    # an archive without any entry: 7-Zip writes the signature header alone ("bare"); the control twin carries an (empty) end header
+    data = archives.build(layout, members, dict_size=None if twin else dict_size, substreams=substreams, bare_empty=bool(case.get("bare_empty")) and not members and not twin)
     apath = "dir/arch" + archives.ext_of(layout)
-    out = {"layout": layout, "n_members": len(members), "n_eligible": len(eligible), "size": len(data), "problems": []}
+    out = {"layout": layout, "n_members": len(members), "n_eligible": len(eligible), "size": len(data), "problems": [],
+           "alt_exts": sorted(set(getattr(build_members, "alt_used", [])))}
     # expected: each eligible member extracted on its own
     expected = []
     for name, mdata in eligible:
@@ -308,6 +364,8 @@ def gen_cases(run):
             corrupt = rng.randrange(n) if (n >= 2 and r % 2 == 1) else None
             cid += 1
             case = {"id": cid, "layout": layout, "seed": run.seed * 10000 + cid, "n": n, "corrupt": corrupt, "noise": r % 4 != 0}
+            if layout.startswith("7z") and n == 0 and r % 2 == 0:
+                case["bare_empty"], case["noise"] = True, False
             if r % 5 == 3 and not layout.startswith("7z") and n:
                 case["updates"] = True          # newer versions of earlier members appended under the same names (tar -u / -r, zipfile append)
             if r % 6 == 4 or (layout.startswith("zip") and r % 3 == 0):
@@ -316,6 +374,9 @@ def gen_cases(run):
                 case["magicname"] = True        # the first member's name begins with the printable magic of a compressed stream
             if layout.startswith("7z") and "per-file" in layout and r % 4 == 3:
                 case["nosub"] = True            # 7z without SubStreamsInfo (legal with one file per folder: each file is its folder's whole output)
+            if r % 5 == 1 and n:
+                case["reconf"] = cid                # option calls that leave the member limit alone; a member of several hundred KiB is in the archive
+                case["repetitive"] = True
             if r % 4 == 1:
                 case["blanks"] = True           # zero-length members of the plain-text family, next to directories
             if r % 6 == 2:
@@ -333,6 +394,7 @@ def main(run):
     run.assumptions = ["the 7z writer is validated on solid layouts by the repository reader itself (self-test) and follows 7zFormat.txt for the others",
                        "a member that fails on its own is only required to be absent"]
     per_layout = {}
+    alt_seen = {}
     compared = 0
     for case, ob in pool.run_cases("checks.c10:work", gen_cases(run), deadline_s=300):
         rep = {"case": case}
@@ -361,6 +423,16 @@ def main(run):
             feat = "empty-member"                       # the twin whose empty members hold two bytes is clean
             if case["layout"].startswith("7z"):
                 lc = "7z"                               # one mechanism for every coder / folder layout
+        for a in ob.get("alt_exts", []):
+            alt_seen[a.lower()] = alt_seen.get(a.lower(), 0) + 1
+        if case.get("bare_empty"):
+            run.count("7z_archives_without_entries_as_7zip_writes_them")
+            if ob["problems"] and ob.get("bare_empty_twin_problems") == []:
+                feat, lc = "empty-archive-without-end-header", "7z"
+        if case.get("reconf") is not None:
+            run.count("archives_read_after_option_calls_that_leave_the_member_limit_alone")
+            if ob["problems"] and ob.get("reconf_twin_problems") == []:
+                feat = "after-option-calls-that-do-not-mention-the-member-limit"       # the same archive under the untouched configuration is clean
         if case.get("magicname"):
             run.count(("tar_uncompressed" if archives.family(case["layout"]) == "tar" else "other") + "_archives_whose_first_member_name_starts_with_BZ")
             if ob["problems"] and ob.get("magic_twin_problems") == []:
@@ -391,11 +463,15 @@ def main(run):
                  sample={"layout": case["layout"], "members": ob.get("n_members"), "eligible": ob.get("n_eligible"), "results": ob.get("n_results"), "corrupted": ob.get("corrupted"), "problems": sorted(seen)} if case["id"] % 29 == 0 else None)
     run.count("members_compared_with_standalone_extraction", compared)
     run.extras["archives_per_layout"] = per_layout
+    run.extras["members_under_other_spellings_of_their_type"] = alt_seen
+    table_only = {".htm", ".html", ".md", ".txt", ".csv", ".json", ".docx", ".docm", ".xlsx", ".xlsm", ".pptx", ".pptm", ".pdf", ".rtf", ".epub", ".odt", ".ods"}
+    run.require("member_spellings_beyond_the_common_extensions", len([a for a in alt_seen if a not in table_only]), 3)
     run.require("layouts_exercised", len(per_layout), len(archives.EXTENDED_LAYOUTS))
     for fmt in ("pax", "gnu", "ustar"):     # every TAR header format must have been read back uncompressed (detection by the tar magic) and compressed
         run.require(f"tar_{fmt}_uncompressed_archives", sum(n for l, n in per_layout.items() if archives.family(l) == "tar" and archives.tar_format(l) == fmt), 5)
         run.require(f"tar_{fmt}_compressed_archives", sum(n for l, n in per_layout.items() if archives.family(l).startswith("tar.") and archives.tar_format(l) == fmt), 15)
-    for k, lo in (("tar_uncompressed_archives_whose_first_member_name_starts_with_BZ", run.n(6, 60)), ("other_archives_whose_first_member_name_starts_with_BZ", run.n(60, 600)),
+    for k, lo in (("7z_archives_without_entries_as_7zip_writes_them", run.n(8, 80)), ("archives_read_after_option_calls_that_leave_the_member_limit_alone", run.n(100, 1000)),
+                  ("tar_uncompressed_archives_whose_first_member_name_starts_with_BZ", run.n(6, 60)), ("other_archives_whose_first_member_name_starts_with_BZ", run.n(60, 600)),
                   ("7z_archives_without_substreams_info", run.n(20, 200)),
                   ("zip_deflated_archives_with_highly_compressible_member", run.n(10, 100)), ("7z_archives_with_highly_compressible_member", run.n(60, 600)),
                   ("other_archives_with_highly_compressible_member", run.n(30, 300)),
